@@ -7,6 +7,14 @@ THEOREMS: dict[str, list[str]] = {
         "Rbacx.C02.c02_first_applicable",
         "Rbacx.C02.c02_none_applicable",
     ],
+    "C04": [
+        "Rbacx.C04.c04_order_numbers_only", "Rbacx.C04.c04_time_operands", "Rbacx.C04.c04_strict_time",
+        "Rbacx.C04.c04_between_inclusive", "Rbacx.C04.c04_string_ops", "Rbacx.C04.c04_collection_ops",
+        "Rbacx.C04.c04_membership_ops", "Rbacx.C04.c04_eq_kind_strict", "Rbacx.C04.c04_and_short_circuit",
+        "Rbacx.C04.c04_or_short_circuit", "Rbacx.C04.c04_not", "Rbacx.C04.c04_not_mismatch",
+        "Rbacx.C04.c04_resolve_missing_step", "Rbacx.C04.c04_resolve_null_absorbs", "Rbacx.C04.c04_mismatch_is_local",
+        "Rbacx.C04.c04_mismatch_not_applicable",
+    ],
 }
 
 PROPERTY_IMPORTS = ["Rbacx.Properties.C02"]
